@@ -405,6 +405,9 @@ func (e *Exec) atLoopHead(s *State, b *ssa.BasicBlock, lr loopRef, depth int) {
 			e.prove(fmt.Sprintf("loop%d/invariant-preserved", lr.idx), fmt.Sprint(inv.Ord), append(append([]string{}, e.con.Tags...), inv.Tags...), s, inv.Expr, env, "loop "+fmt.Sprint(lr.idx)+" invariant "+inv.Src)
 		}
 		e.loopFrameCheck(s, b, lr.idx, "preserved")
+		e.preservesGoals(s, lr.idx, spec, func(fam, g string) {
+			e.obligeK(fmt.Sprintf("loop%d/preserves", lr.idx), fam, e.con.Tags, s, g, "loop "+fmt.Sprint(lr.idx)+" preserves clause: "+fam+" unchanged since loop entry on the named locations")
+		})
 		if spec.Decreases != nil {
 			d := bterm(env.eval(spec.Decreases))
 			d0 := e.decAtHead[b]
@@ -414,6 +417,7 @@ func (e *Exec) atLoopHead(s *State, b *ssa.BasicBlock, lr loopRef, depth int) {
 		return
 	}
 	// entry: invariant must hold
+	e.loopEntry[lr.idx] = s.clone()
 	env := e.invEnv(s, lc)
 	for _, inv := range spec.Invs {
 		e.prove(fmt.Sprintf("loop%d/invariant-entry", lr.idx), fmt.Sprint(inv.Ord), append(append([]string{}, e.con.Tags...), inv.Tags...), s, inv.Expr, env, "loop "+fmt.Sprint(lr.idx)+" invariant "+inv.Src)
@@ -439,6 +443,7 @@ func (e *Exec) atLoopHead(s *State, b *ssa.BasicBlock, lr loopRef, depth int) {
 		}
 	}
 	e.loopFrameAssume(h, ef)
+	e.preservesGoals(h, lr.idx, spec, func(fam, g string) { h.assume("%s", g) })
 	for _, a := range sortedAllocs(h.cells) {
 		if ef.cells[a] || ef.all && a.Heap {
 			h.cells[a] = e.symbolic(h, a.Type().(*types.Pointer).Elem(), "hv_"+a.Comment)
@@ -471,6 +476,30 @@ func (e *Exec) atLoopHead(s *State, b *ssa.BasicBlock, lr loopRef, depth int) {
 	e.blockFrom(h, b, 0, depth)
 	e.curLoop = savedLoop
 	delete(e.inLoopBody, b)
+}
+
+// preserves clauses: the named locations have the values they had at loop entry
+func (e *Exec) preservesGoals(s *State, idx int, spec *LoopSpec, emit func(fam, goal string)) {
+	if len(spec.Preserves) == 0 {
+		return
+	}
+	le := e.loopEntry[idx]
+	env := &SpecEnv{e: e, cur: le, old: e.entry, vars: map[string]TV{}, params: e.entryVars, pkg: e.con.Pkg, fn: e.fn, bound: map[string]bool{}}
+	ms := e.resolveModifies(spec.Preserves, false, env)
+	for _, fam := range sortedKeys(ms.conds) {
+		sig := ms.sigs[fam]
+		old := e.cur(le, fam, sig.Args, sig.Res)
+		nw := e.cur(s, fam, sig.Args, sig.Res)
+		if old == nw || len(sig.Args) == 0 {
+			continue
+		}
+		var binders, as []string
+		for i, so := range sig.Args {
+			binders = append(binders, fmt.Sprintf("(a%d %s)", i, so))
+			as = append(as, fmt.Sprintf("a%d", i))
+		}
+		emit(fam, fmt.Sprintf("(forall (%s) %s)", strings.Join(binders, " "), e.withPat(fmt.Sprintf("(=> %s (= %s %s))", ms.cond(fam, as), app(nw, as...), app(old, as...)), nw, as)))
+	}
 }
 
 func (e *Exec) loopEffectsOf(b *ssa.BasicBlock) *effects {
